@@ -3,6 +3,7 @@
 package names
 
 import (
+	"bytes"
 	"context"
 	"fmt"
 	"regexp"
@@ -15,6 +16,7 @@ import (
 	"github.com/PowerDNS/lightningstream/config"
 	"github.com/PowerDNS/lightningstream/snapshot"
 	"github.com/PowerDNS/lightningstream/syncer"
+	"github.com/PowerDNS/lightningstream/syncer/cleaner"
 
 	"verif/bucket"
 	"verif/lmdbx"
@@ -88,8 +90,8 @@ func C15() *runner.Property {
 		ID:    "C15",
 		Level: "exploration",
 		Rule: "roundtrip: generated NameInfo (database/instance over the safe alphabet, lengths 1-64, generation ids, 0-3 extra items, timestamps from every digit-rollover boundary class 1970..2262 +-{0,1ns,1s} and random, carried in UTC and non-UTC locations) -> BuildName -> ParseName must return the same components and instant; " +
-			"order: names of one database/instance sorted by bytes must equal the list sorted by time; parse: arbitrary strings and mutations of valid names must not panic; sanitise: syncer.New with arbitrary instance strings -> the name of a real SendOnce blob parses and its instance component is over [A-Za-z0-9-] and equals the blob's metadata; " +
-			"receiver: buckets with databases db, db-2, db2, dbx, plain files and malformed names -> a real Receiver for db delivers only db's snapshots, the newest per instance. Non-trivial = distinct names (roundtrip), pairs with distinct timestamps (order), distinct inputs (others).",
+			"order: names of one database/instance sorted by bytes must equal the list sorted by time; parse: arbitrary strings and mutations of valid names (incl. one replaced byte inside the timestamp field) must not panic, and whatever ParseName accepts must be exactly the name built from the parsed components and instant (names <-> component tuples one to one); sanitise: syncer.New with arbitrary instance strings -> the name of a real SendOnce blob parses and its instance component is over [A-Za-z0-9-] and equals the blob's metadata; " +
+			"receiver: buckets with databases db, db-2, db2, dbx, plain files and malformed names -> a real Receiver for db delivers only db's snapshots, the newest per instance; cleaner: a real cleaner.Worker for database main in a bucket shared with main-2, main2, mai, main--, MAIN (same instances, newer snapshots) issues no Delete outside main__* and the same Deletes as in a bucket without them. Non-trivial = distinct names (roundtrip), pairs with distinct timestamps (order), distinct inputs (others).",
 		Assumptions: []string{"timestamps 1970-01-01 .. 2262-04-11 (int64 nanoseconds)"},
 		BatchSize:   4,
 		CaseTimeout: 120e9,
@@ -108,6 +110,7 @@ func C15() *runner.Property {
 			for i := 0; i < 2*k; i++ {
 				cs = append(cs, runner.MkCase("sanitise", fmt.Sprint(i), c15Params{Part: "sanitise", Seed: r.U64(), Count: 40}))
 				cs = append(cs, runner.MkCase("receiver", fmt.Sprint(i), c15Params{Part: "receiver", Seed: r.U64(), Count: 6}))
+				cs = append(cs, runner.MkCase("cleaner", fmt.Sprint(i), c15Params{Part: "cleaner", Seed: r.U64(), Count: 40}))
 			}
 			return cs
 		},
@@ -246,6 +249,18 @@ func runC15(c runner.Case, env *runner.Env) (res runner.Result) {
 				if r.Bool() {
 					b = []byte(snapshot.NameInfo{SyncerName: "db", InstanceID: "i", GenerationID: "GX", Timestamp: genTime(r, bt), Extension: "pb.gz", Extra: genExtra(r)}.BuildName())
 				}
+				if r.Chance(1, 4) {
+					// exactly one byte of the timestamp field replaced (separators, digits, anything)
+					at := bytes.Index(b, []byte("__2")) // "__" + first digit of the year
+					if at > 0 {
+						pos := at + 2 + r.Intn(25)
+						if pos < len(b) {
+							b[pos] = rng.Pick(r, byte('_'), '.', '-', '0', '9', 'x', ',', ':', ' ', '/')
+						}
+					}
+					s = string(b)
+					goto parse
+				}
 				for k := 0; k < 1+r.Intn(3); k++ {
 					pos := r.Intn(len(b))
 					switch r.Intn(5) {
@@ -266,6 +281,7 @@ func runC15(c runner.Case, env *runner.Env) (res runner.Result) {
 				}
 				s = string(b)
 			}
+		parse:
 			func() {
 				defer func() {
 					if e := recover(); e != nil {
@@ -275,9 +291,16 @@ func runC15(c runner.Case, env *runner.Env) (res runner.Result) {
 				ni, err := snapshot.ParseName(s)
 				if err == nil {
 					ok++
-					_ = ni.BuildName()
 					_ = ni.ShortHash()
 					_ = ni.Extra.String()
+					// names and component tuples correspond one to one: whatever is accepted as a snapshot name is
+					// exactly the name built from its components (otherwise two distinct names share one tuple and
+					// byte order no longer follows the parsed timestamps)
+					canon := ni
+					canon.TimestampString = "" // build the timestamp field from the parsed instant, not from the input text
+					if rb := canon.BuildName(); rb != s {
+						res.Violate("accepted-name-not-canonical", fmt.Sprintf("ParseName accepted %q but its components build %q", s, rb), map[string]any{"input": s})
+					}
 				}
 			}()
 		}
@@ -360,6 +383,72 @@ func runC15(c runner.Case, env *runner.Env) (res runner.Result) {
 		}
 		res.NonTrivial = true
 		res.Sample = map[string]any{"case": c.ID, "instances": p.Count}
+	case "cleaner":
+		// The real cleaner of database "main" works in a bucket shared with databases whose names extend or shorten it
+		// (main-2, main2, mai, main--, MAIN), same instance names, newer snapshots. It must never delete anything that is
+		// not main__*, and what it deletes of main__* must be what it deletes when the other databases are not there.
+		lsx.Quiet()
+		base := time.Date(2025, 3, 1, 12, 0, 0, 0, time.UTC)
+		for i := 0; i < p.Count; i++ {
+			keep := rng.Pick(r, time.Duration(0), time.Second, time.Hour)
+			stale := rng.Pick(r, time.Duration(0), 24*time.Hour, 30*24*time.Hour)
+			conf := config.Cleanup{Enabled: true, Interval: time.Hour, MustKeepInterval: keep, RemoveOldInstancesInterval: stale}
+			shared, alone := bucket.New(), bucket.New()
+			insts := []string{"host1", "host2", "h"}[:1+r.Intn(3)]
+			var own []string
+			for _, in := range insts {
+				t := base
+				for k := 0; k < 1+r.Intn(4); k++ {
+					t = t.Add(time.Duration(1+r.Intn(100000)) * time.Millisecond)
+					n := snapshot.Name("main", in, "GX", t)
+					own = append(own, n)
+					shared.Put(n, []byte("s"))
+					alone.Put(n, []byte("s"))
+				}
+				for _, other := range []string{"main-2", "main2", "mai", "main--", "MAIN", "main-main"} {
+					if r.Chance(2, 3) {
+						for k := 0; k < 1+r.Intn(3); k++ {
+							// newer than everything of main, or in between
+							ot := t.Add(time.Duration(r.Intn(200000)-50000) * time.Millisecond)
+							shared.Put(snapshot.Name(other, in, "GX", ot), []byte("o"))
+						}
+					}
+				}
+			}
+			ws, wa := cleaner.New("main", shared, conf, lsx.NullLogger()), cleaner.New("main", alone, conf, lsx.NullLogger())
+			now := base.Add(300 * time.Second)
+			for run := 0; run < 3; run++ {
+				_ = ws.RunOnce(context.Background(), now)
+				_ = wa.RunOnce(context.Background(), now)
+				now = now.Add(keep + rng.Pick(r, time.Nanosecond, time.Second, 40*24*time.Hour))
+			}
+			var delShared, delAlone []string
+			for _, e := range shared.Log() {
+				if e.Op == "Delete" {
+					if !strings.HasPrefix(e.Name, "main__") {
+						res.Violate("cleaner-deleted-other-database", fmt.Sprintf("the cleaner of database main deleted %s", e.Name), map[string]any{"bucket": shared.Names(), "keep": keep.String(), "stale": stale.String()})
+					} else {
+						delShared = append(delShared, e.Name)
+					}
+				}
+			}
+			for _, e := range alone.Log() {
+				if e.Op == "Delete" {
+					delAlone = append(delAlone, e.Name)
+				}
+			}
+			sort.Strings(delShared)
+			sort.Strings(delAlone)
+			if fmt.Sprint(delShared) != fmt.Sprint(delAlone) {
+				res.Violate("cleaner-influenced-by-other-database", fmt.Sprintf("with other databases in the bucket the cleaner of main deleted %v, without them %v", delShared, delAlone), map[string]any{"own": own, "keep": keep.String(), "stale": stale.String()})
+			}
+			res.Count("cleaner_scenarios", 1)
+			res.Count("cleaner_deletes_observed", int64(len(delAlone)))
+			if len(delAlone) > 0 {
+				res.NonTrivial = true
+			}
+		}
+		res.Sample = map[string]any{"case": c.ID, "scenarios": p.Count}
 	case "receiver":
 		for i := 0; i < p.Count; i++ {
 			db := "db"
@@ -377,7 +466,9 @@ func runC15(c runner.Case, env *runner.Env) (res runner.Result) {
 				sc.Foreign = append(sc.Foreign, other+"__i0__"+ts+"__GX.pb.gz", other+"__zz__"+ts+"__GX.pb.gz")
 			}
 			sc.Foreign = append(sc.Foreign, "db", "db__", "db__x", "db__i0__"+ts+".pb.gz", "db__i0__"+ts+"__GX.tmp", "db__i0__"+ts+"__GX", "db__i0__2030__GX.pb.gz",
-				"db__i0__"+ts+"__GX.pb.gz.tmp", "db__i0__20300101-000000.000000000__GX.pb.gz", "README", "db__i0__"+ts[:24]+"__GX.pb.gz", "db.pb.gz", "db__i0__99999999-999999-999999999__GX.pb.gz")
+				"db__i0__"+ts+"__GX.pb.gz.tmp", "db__i0__20300101-000000.000000000__GX.pb.gz", "README", "db__i0__"+ts[:24]+"__GX.pb.gz", "db.pb.gz", "db__i0__99999999-999999-999999999__GX.pb.gz",
+				// a stray byte where the seconds/nanoseconds separator belongs: sorts after every real name of that second
+				"db__i0__20300101-000000_000000000__GX.pb.gz", "db__i0__20300101-000000x000000000__GX.pb.gz", "db__i0__20300101-0000000000000000__GX.pb.gz", "db__i0__20300101_000000-000000000__GX.pb.gz")
 			rng.Shuffle(r, sc.Foreign)
 			out := recvx.Run(sc, nil, 40*time.Second)
 			res.Count("receiver_scenarios", 1)
@@ -393,6 +484,11 @@ func runC15(c runner.Case, env *runner.Env) (res runner.Result) {
 			for _, d := range out.Deliveries {
 				if !strings.HasPrefix(d.Name, "db__") {
 					res.Violate("foreign-name-delivered", "delivered "+d.Name, nil)
+				}
+				for _, fn := range sc.Foreign {
+					if d.Name == fn {
+						res.Violate("decoy-name-delivered", "the receiver delivered "+d.Name+", which is not a snapshot name of this database", nil)
+					}
 				}
 			}
 		}
